@@ -7,6 +7,7 @@ CONSTANTS
   MAXUPD = 0
   CANCELS = 2
   TIMERS = TRUE
+  SeesAdmitting = TRUE
 INVARIANTS TAdmission TClean TOneTerminal NoDoubleBooking TypeOK
 POSTCONDITION TraceAccepted
 CHECK_DEADLOCK FALSE
